@@ -76,6 +76,7 @@ func script(r Req, p string) ledger.RunScript {
 	var sb strings.Builder
 	vars := map[string]string{}
 	decl := []string{}
+	aliasUse := []string{}
 	srcExpr := func(i int, a string) string {
 		if a == "world" {
 			return "@world"
@@ -83,6 +84,13 @@ func script(r Req, p string) ledger.RunScript {
 		switch {
 		case a == "$payer":
 			return "$payer"
+		case r.Mode == "alias":
+			// the source is a variable, and an earlier variable that is not a source names the same account
+			owner, name := fmt.Sprintf("o%d", i), fmt.Sprintf("s%d", i)
+			decl = append(decl, fmt.Sprintf("\taccount $%s\n\taccount $%s\n", owner, name))
+			vars[owner], vars[name] = real(a), real(a)
+			aliasUse = append(aliasUse, fmt.Sprintf("set_tx_meta(\"owner%d\", $%s)\n", i, owner))
+			return "$" + name
 		case r.Mode == "var":
 			name := fmt.Sprintf("s%d", i)
 			decl = append(decl, fmt.Sprintf("\taccount $%s\n", name))
@@ -126,6 +134,7 @@ func script(r Req, p string) ledger.RunScript {
 	if len(decl) > 0 {
 		sb.WriteString("vars {\n" + strings.Join(decl, "") + "}\n")
 	}
+	sb.WriteString(strings.Join(aliasUse, ""))
 	sb.WriteString(body.String())
 	if r.Kind == "create" && r.Mval == "am" {
 		// one account of the postings and one the transaction does not touch
